@@ -339,6 +339,16 @@ pub fn check_views(step: usize, g: &G, m: &Model, in_sync: bool, case: &Case, cx
         if rng.chance(3, 4) {
             set.retain(|x| has(x));
         }
+        if round == 2 && !node_names.is_empty() {
+            // a name listed more than once (a list is not a set to every implementation)
+            let x = rng.pick(&node_names).clone();
+            set.push(x.clone());
+            if rng.chance(1, 2) {
+                set.insert(0, x);
+            } else {
+                set.push(x);
+            }
+        }
         if round == 3 && node_names.len() <= 12 {
             // every node named twice: a list longer than the node list, all present
             set = node_names.iter().chain(node_names.iter()).cloned().collect();
@@ -544,7 +554,7 @@ impl Prop for C02Prop {
     }
     fn cross(&self, _case: &Case, _results: &[EnvResult], _cx: &mut Ctx) {}
     fn rule(&self) -> String {
-        "lifecycle histories (<= 24 ops, incl. derived-graph operations in 1/3 of the runs) stratified over all 96 GraphSpecs, under 2 hash keyings; after EVERY op every read API is queried for every ordered pair of the name universe plus two absent names, every node, random node sets, both adjacency maps, BFS, and compared with the answer derived from the node list and edge multiset; with the hook the 12 private indexes are compared with each other. distinct_nontrivial = distinct (specs, history) whose final graph has edges and either parallel edges or a name order different from the insertion order; one case in 3000 loads 2 100 - 12 500 edges (one to three batches or the constructor, same edge values re-submitted on multi-edge graphs) into 45-180 nodes and continues with a short tail (strategy thresholds); on universes of more than 80 names 600 ordered pairs per step are sampled (both orientations of stored edges and random pairs) instead of all pairs, and on universes of more than 300 names the per-node queries are asked for the 3 nodes of highest degree and 60 sampled names; the large histories come in variants: dense (45-180 nodes), a hub with 1 100 - 1 600 neighbours; in half of them a load of 260-420 edges into ANOTHER graph is rejected part-way on the same thread first (fault, then recovery, at scale)".into()
+        "lifecycle histories (<= 24 ops, incl. derived-graph operations in 1/3 of the runs) stratified over all 96 GraphSpecs, under 2 hash keyings; after EVERY op every read API is queried for every ordered pair of the name universe plus two absent names, every node, random node sets, both adjacency maps, BFS, and compared with the answer derived from the node list and edge multiset; with the hook the 12 private indexes are compared with each other. distinct_nontrivial = distinct (specs, history) whose final graph has edges and either parallel edges or a name order different from the insertion order; one case in 3000 loads 2 100 - 12 500 edges (one to three batches or the constructor, same edge values re-submitted on multi-edge graphs) into 45-180 nodes and continues with a short tail (strategy thresholds); on universes of more than 80 names 600 ordered pairs per step are sampled (both orientations of stored edges and random pairs) instead of all pairs, and on universes of more than 300 names the per-node queries are asked for the 3 nodes of highest degree and 60 sampled names; the large histories come in variants: dense (45-180 nodes), a hub with 1 100 - 1 600 neighbours; in half of them a load of 260-420 edges into ANOTHER graph is rejected part-way on the same thread first (fault, then recovery, at scale); one node-list query per step names a node more than once".into()
     }
     fn assumptions(&self) -> Vec<String> {
         vec![
